@@ -1099,6 +1099,9 @@ class Exp(Num):
 
         base, exp = self.base, self.exp
 
+        if isinstance(other, int) and other < 0:
+            return -(self // -other)
+
         if not isinstance(other, int):
             assert isinstance(other, Exp)
             assert other.base == base
